@@ -82,13 +82,17 @@ def classify(tr, line, clause):
     e = ev[line - 1] if line and 0 < line <= len(ev) else {}
     cfg = tr.get("cfg", {})
     last = {}
+    beg = {}
     for x in ev[:max(0, (line or 1) - 1)]:
         if x.get("op") == "query":
             last = x
+        elif x.get("op") == "begin":
+            beg = x
     lo = last.get("out", {})
     prev = lo.get("x") if lo.get("k") == "exc" else lo.get("rcode", "-")
-    return "%s:%s:%s:after=%s:res=%s:rsf=%s:tcp=%s:cache=%s" % (
-        clause, tr.get("mode", "?"), e.get("op", "?"), prev, e.get("res", "-"), cfg.get("rsf"), cfg.get("tcp"), cfg.get("cache"))
+    return "%s:%s:%s:after=%s:res=%s:q=%s/%s:rsf=%s:tcp=%s:cache=%s" % (
+        clause, tr.get("mode", "?"), e.get("op", "?"), prev, e.get("res", "-"), beg.get("qtype", "-"), beg.get("qclass", "-"),
+        cfg.get("rsf"), cfg.get("tcp"), cfg.get("cache"))
 
 
 def run(ctx):
@@ -201,6 +205,10 @@ def submit_generators(ctx, quick, gen):
     gen("Gen_Resolution", gen_cfg(ctx, "g3.cfg", configs="GCfgCache1" if quick else "GCfgCache",
                                                       requests="GReqRel" if quick else "GReqBoth", outcomes="GOutCache",
                                                       advances="GAdvZero", maxres=2, maxq=2, idle="{0, 16, 96}"))
+    # G8: the question's class and type: two (thorough: three) resolutions sharing one cache, same and different
+    #     names x classes {IN, CH} x types {A, TXT}; answer / empty answer / NXDOMAIN; entries alive or expired
+    gen("Gen_Resolution", gen_cfg(ctx, "g8.cfg", configs="GCfgClass", requests="GReqClass", outcomes="GOutClass",
+                                  advances="GAdvZero", maxres=2, maxq=1, idle="{0, 96}"))
     # G4: one and three servers, every way of failing
     gen("Gen_Resolution", gen_cfg(ctx, "g4.cfg", configs="GCfgThree" if quick else "GCfgOneThree",
                                                       requests="GReqAbs", outcomes="GOutFail10" if quick else "GOutFailing",
